@@ -7,14 +7,17 @@ from gen import collect as G
 
 ID = "C14"
 LEVEL = "proof"
-LEAN_IMPORTS = ["WM.Props.C14Page", "WM.Props.C14", "WM.Props.C14Results", "WM.Props.C14Compose"]
+LEAN_IMPORTS = ["WM.Props.C14Page", "WM.Props.C14", "WM.Props.C14Results", "WM.Props.C14Compose",
+                "WM.Props.C14FilterObj"]
 THEOREMS = ["WM.C14.page_fields", "WM.C14.page_tiling", "WM.C14.sorted", "WM.C14.kdLe_iff", "WM.C14.filter_mask",
             "WM.C14.filter_commutes_ranking", "WM.C14.filter_commutes_sorting", "WM.C14.facets_partition",
             "WM.C14.facets_count", "WM.C14.collapse", "WM.C14.rank_iso", "WM.C14.rank_missing",
             "WM.C14.len_sorted", "WM.C14.len_top", "WM.C14.extend_spec", "WM.C14.filter_spec", "WM.C14.upgrade_spec",
             "WM.C14.sorted_reverse_ties", "WM.C14.facets_ordered", "WM.C14.facets_best", "WM.C14.page_slice",
             "WM.C14.upgrade_and_extend_spec", "WM.C14.search_filter_mask_sorted", "WM.C14.search_filter_mask_scored",
-            "WM.C14.search_collapse_sorted", "WM.C14.page_of_view"]
+            "WM.C14.search_collapse_sorted", "WM.C14.page_of_view", "WM.C14.results_docs_top",
+            "WM.C14.results_docs_unlimited", "WM.C14.filter_object_forms", "WM.C14.search_filter_given_as_results",
+            "WM.C14.results_object_of_limited_search"]
 PARTIAL = {
     "WM.C14.len_top":
         "only the branch may_have_dropped = false has content (TopCollector.total counted every match); in the "
@@ -29,8 +32,12 @@ PARTIAL = {
         "sortedby+reverse=True:ties-in-descending-document-order",
     "WM.C14.filter_commutes_ranking":
         "a fact about the specification order; composed with filter_mask, sorted and C05.with_wrappers_partial / "
-        "C05.unlimited into WM.C14.search_filter_mask_sorted and WM.C14.search_filter_mask_scored. Turning a "
-        "filter given as a query or a Results object into an id set is checked end to end only",
+        "C05.unlimited into WM.C14.search_filter_mask_sorted and WM.C14.search_filter_mask_scored; a filter / mask "
+        "given as a query, an id set, a Results object or a ResultsPage is turned into the id set by the modelled "
+        "Searcher._filter_to_comb / Results.docs (WM.C14.filter_object_forms, composed into "
+        "WM.C14.search_filter_given_as_results). What docs_for_query yields for the filter query is an input of the "
+        "model (C01's business); Results objects of sorted / faceted / collapsed searches used as filters are "
+        "checked end to end only",
     "WM.C14.collapse":
         "composed with the filter and the SortingCollector into WM.C14.search_collapse_sorted (sorted searches, any "
         "limit, len(), collapsed_counts) and with ResultsPage into WM.C14.page_of_view; the *scored* stack "
@@ -45,6 +52,10 @@ PARTIAL = {
 RULE = ("view-stack stream: Searcher.collector / Searcher.search_page (the real methods, over abstract segments with "
         "key tables) building FilterCollector(CollapseCollector(SortingCollector)) vs the Lean searchSorted / "
         "searchPageSorted; non-trivial = a document was filtered, collapsed or cut by the limit / page. "
+        "filter-objects stream: the real Searcher._filter_to_comb and Searcher.collector(limit=, filter=, mask=) with "
+        "filter/mask given as None, id set, query, Results of a limited (limit 1/2/3/10, before and after docs()) or "
+        "unlimited scored search, ResultsPage, or an unusable object vs the Lean filterToComb / searchFilterObjs; "
+        "non-trivial = a Results object whose limit is below the number of documents its query matched. "
         "collector stream: the real Sorting/Unlimited/Top/Filter/Facet/Collapse collectors over abstract segments "
         "with key tables (ties, missing keys, 0 keys) vs the Lean model; non-trivial = at least two documents tie on "
         "the key, or a document is filtered/collapsed. page stream: exhaustive total<=40 x pagelen<=12 x pagenum<=8. "
@@ -311,6 +322,108 @@ def _stream_collectors(ctx):
     ctx.sample({"collector_line": lines[0][:300], "model_reply": replies[0][:200]})
 
 
+def _stream_filter_objects(ctx):
+    """Direct correspondence for `filterToComb` / `ResultsObj.docs` / `searchFilterObjs` (what the theorems
+    filter_object_forms and search_filter_given_as_results speak about): the real Searcher._filter_to_comb and
+    the real Searcher.collector(limit=, filter=, mask=) stack, with filter / mask given as None, an id set, a
+    query, the Results of a limited or unlimited scored search (before and after docs() was called on it), a
+    ResultsPage, or an unusable object."""
+    from whoosh import collectors
+    from whoosh.searching import Searcher, ResultsPage
+    rng = ctx.rng("filter-objects")
+    n = ctx.budget(1500, 6000)
+
+    def gen_obj():
+        kind = rng.choice(["none", "none", "ids", "query", "top", "top", "top", "page", "unl", "other"])
+        if rng.random() < 0.01:
+            kind = "other"
+        elif kind == "other":
+            kind = "top"
+        if kind in ("none", "other"):
+            return (kind,)
+        fsegs, _ = G.gen_world(rng, maxseg=rng.choice([1, 2, 4]), maxpost=8)
+        if kind == "ids":
+            docs = sorted(set(_docs_of(fsegs)))
+            return (kind, sorted(rng.sample(docs + [997], rng.randint(0, len(docs)))))
+        if kind in ("query", "unl"):
+            return (kind, fsegs)
+        return (kind, fsegs, rng.choice([1, 1, 2, 3, 10]), rng.choice([0, 1, 10]), rng.random() < 0.7, rng.random() < 0.25)
+
+    def build(o):
+        """-> (the real object, its protocol text, limit-of-the-object < its matches)"""
+        kind = o[0]
+        if kind == "none":
+            return None, "none", False
+        if kind == "other":
+            return 42, "other", False
+        if kind == "ids":
+            return set(o[1]), "(ids %s)" % sexp(o[1]), False
+        fw = G.FakeWorld(o[1], [])
+        if kind == "query":
+            return fw.q, "(query %s)" % G.segs_sexp(o[1]), False
+        if kind == "unl":
+            return fw.run(collectors.UnlimitedCollector()), "(unl %s)" % G.segs_sexp(o[1]), False
+        _, fsegs, limit, replace, uq, prior = o
+        r = fw.run(collectors.TopCollector(limit=limit, usequality=uq, replace=replace))
+        if prior:
+            r.docs()
+        text = "(%s (%d %d %d) %s %d)" % (kind, limit, replace, 1 if uq else 0, G.segs_sexp(fsegs), 1 if prior else 0)
+        cut = limit < len(_docs_of(fsegs))
+        if kind == "page":
+            return ResultsPage(r, 1, pagelen=limit), text, cut
+        return r, text, cut
+
+    def comb(w, obj):
+        c = w._filter_to_comb(obj)
+        return None if c is None else sorted(set(c))
+    lines, impls = [], []
+    for i in range(n):
+        segs, sched = G.gen_world(rng, maxpost=8)
+        fo, mo = gen_obj(), gen_obj()
+        limit = rng.choice([1, 2, 3, 10])
+        uq = rng.random() < 0.7
+        fobj, ftext, fcut = build(fo)
+        mobj, mtext, mcut = build(mo)
+        w = G.FakeWorld(segs, sched)
+        try:
+            try:
+                r = w.search(w.q, limit=limit, filter=fobj, mask=mobj, optimize=uq)     # the real Searcher.search
+                c = top = r.collector
+                while hasattr(top, "child"):
+                    top = top.child
+                tail = ("ok", [(d, G.frac(s)) for s, d in r.top_n], getattr(c, "filtered_count", 0))
+            except IndexError:
+                tail, top = ("err", "IndexError"), None
+            impl = ("ok", comb(w, fobj), comb(w, mobj), tail, getattr(top, "replace", 10))
+        except Exception as e:  # noqa: the unusable object
+            if "Don't know what to do with filter object" not in str(e):
+                raise
+            impl = ("exc", "unknown-object")
+        replace = impl[4] if impl[0] == "ok" else 10
+        lines.append("c05 ftc (%d %d %d 0) () %s %s %s %s" % (limit, replace, 1 if uq else 0, ftext, mtext,
+                                                             G.segs_sexp(segs), G.sched_sexp(sched)))
+        impls.append((impl[:4], fo[0], mo[0], fcut or mcut))
+    replies = ctx.driver.ask(lines)
+    for line, (impl, fk, mk, cut), reply in zip(lines, impls, replies):
+        p = parse_sexp(reply)
+        if p[0] == "exc":
+            model = ("exc", p[1])
+        else:
+            t = p[3]
+            tail = ("err", t[1]) if t[0] == "err" else ("ok", G.parse_hits(t[1]), int(t[2]))
+            model = ("ok", None if p[1] == "none" else [int(x) for x in p[1]],
+                     None if p[2] == "none" else [int(x) for x in p[2]], tail)
+        ctx.case(("filter-objects", line), nontrivial=cut)
+        ctx.stat("filter-objects:filter=%s" % fk)
+        ctx.stat("filter-objects:mask=%s" % mk)
+        if cut:
+            ctx.stat("filter-objects:Results-object-with-limit<matches")
+        if model != impl:
+            ctx.divergence("searching.Searcher._filter_to_comb+Results.docs+FilterCollector(TopCollector)", line,
+                           model, impl)
+    ctx.sample({"filter_objects_line": lines[0][:300], "model_reply": replies[0][:200]})
+
+
 def _stream_view_stack(ctx):
     """Direct correspondence for `searchSorted` / `searchPageSorted` (the functions the composed theorems
     search_filter_mask_sorted, search_collapse_sorted and page_of_view speak about): the real
@@ -319,15 +432,8 @@ def _stream_view_stack(ctx):
     from whoosh.searching import Searcher
     TableFacet = _facet_classes()
 
-    class ViewWorld(G.FakeWorld):
-        def search(self, q, **kw):
-            return self.run(Searcher.collector(self, **kw))
-
-        def search_page(self, q, pagenum, pagelen=10, **kw):
-            return Searcher.search_page(self, q, pagenum, pagelen, **kw)
-
-        def reader(self):      # Hit.__init__ keeps a reader (only used for stored fields)
-            return None
+    # the fake world is a real Searcher over fake readers: search() / search_page() / collector() are the real methods
+    ViewWorld = G.FakeWorld
     rng = ctx.rng("view-stack")
     n = ctx.budget(2500, 15000)
     lines, checks = [], []
@@ -876,7 +982,23 @@ def _views_run(corpus, seedstr):
                             fdocs = [d["id"] for d in _matched(corpus, fq)] if fq[1] != "zz" else []
                             fobj = _build_q(fq) if fq[1] != "zz" else query.Term("t", "zz")
                             if how == "results":
-                                fobj = s.search(fobj, limit=None)
+                                # the document set of a Results object is every document its query matched,
+                                # whatever limit / order / page the object was produced with
+                                rhow = rng.choice(["none", "k", "k", "k", "default", "sorted-k", "page", "k-len"])
+                                rk = rng.choice([1, 1, 2, 3, 5])
+                                if rhow == "none":
+                                    fobj = s.search(fobj, limit=None)
+                                elif rhow in ("k", "k-len"):
+                                    fobj = s.search(fobj, limit=rk, optimize=rng.random() < 0.5)
+                                    if rhow == "k-len":
+                                        len(fobj)
+                                elif rhow == "default":
+                                    fobj = s.search(fobj)
+                                elif rhow == "sorted-k":
+                                    fobj = s.search(fobj, limit=rk, sortedby="nm", reverse=rng.random() < 0.5)
+                                else:
+                                    fobj = s.search_page(fobj, rng.choice([1, 1, 2]), pagelen=rk)
+                                rec["results_as"] = rhow
                         elif how == "emptyresults":
                             fobj = s.search(query.Term("t", "zz"), limit=None)
                         else:
@@ -1271,9 +1393,12 @@ def _judge_view(ctx, r, reply, replies):
         frev = r.get("frev")
         ctx.stat("e2e:bit-column:%s:%s" % (r["corpus"].get("bitmode", "all"),
                                             "per-key-reverse" if (frev[0] if isinstance(frev, (list, tuple)) else frev) else "ascending"))
+    if r.get("results_as"):
+        ctx.stat("e2e:filter-given-as-Results:" + r["results_as"])
     case = {"corpus": r["corpus"], "q": r["q"], "seed": r.get("seed"), "index": r.get("index"),
             "view": {k: r[k] for k in r if k in (
-                "kind", "field", "frev", "rev", "limit", "maptype", "climit", "order", "sortf", "pagelen", "pagenum")}}
+                "kind", "field", "frev", "rev", "limit", "maptype", "climit", "order", "sortf", "pagelen", "pagenum",
+                "results_as")}}
     nontrivial, vs = _verdicts(r, reply)
     ctx.case((kind, repr(case)), nontrivial=nontrivial)
     if vs and "nolate" in r:
@@ -1446,6 +1571,7 @@ def _stream_categorizers(ctx):
 def run(ctx):
     _stream_collectors(ctx)
     _stream_view_stack(ctx)
+    _stream_filter_objects(ctx)
     _stream_pages(ctx)
     _stream_results_ops(ctx)
     _stream_categorizers(ctx)
